@@ -777,8 +777,8 @@ func EmitSites(p *Prog) []EmitSite {
 	for _, fn := range p.AllRepoFuncs() {
 		allInstrs(fn, func(in ssa.Instruction) {
 			c, ok := in.(*ssa.Call)
-			if ok && isCalleeObj(c.Common(), w) && len(c.Call.Args) == 2 {
-				out = append(out, EmitSite{fn, c, c.Call.Args[1]})
+			if ok && isCalleeObj(c.Common(), w) && len(c.Call.Args) >= 1 {
+				out = append(out, EmitSite{fn, c, c.Call.Args[len(c.Call.Args)-1]})
 			}
 		})
 	}
